@@ -378,7 +378,13 @@ class Model:
                 )
                 n_res = sensitivities.shape[0]
 
-                jacobian[residual_idx : residual_idx + n_res, p_indices] -= sensitivities
+                # Accumulate: `p_indices` repeats an index when a data set maps two model parameters
+                # to the same fit parameter, and a buffered `-=` would keep only the last term
+                np.subtract.at(
+                    jacobian,
+                    (slice(residual_idx, residual_idx + n_res), p_indices),
+                    sensitivities,
+                )
 
                 residual_idx += n_res
 
